@@ -112,6 +112,9 @@ pub enum Auth<'a> {
     Altered(&'a [Address]),
     /// like `By`, but only the demanded invocations whose root function has this name are signed
     Only(&'a [Address], &'a str),
+    /// the principals sign what the code demands of them for a *different* call
+    /// (contract, function, arguments), and those entries are presented with this call
+    ForOtherCall(&'a [Address], &'a Address, &'a str, &'a [Val]),
     /// recording mode (setup only, never used for a verdict)
     Setup,
 }
@@ -494,6 +497,14 @@ impl World {
             }
             Auth::Setup => {
                 self.env.mock_all_auths_allowing_non_root_auth();
+                let c = self.raw_call(contract, func, args);
+                self.env.set_auths(&[]);
+                c
+            }
+            Auth::ForOtherCall(who, oc, of, oa) => {
+                let rec = self.record_auth(oc, of, oa);
+                let entries = self.entries_for(who, &rec, 0, None);
+                self.env.set_auths(&entries);
                 let c = self.raw_call(contract, func, args);
                 self.env.set_auths(&[]);
                 c
